@@ -10,6 +10,7 @@ import (
 	"github.com/mimiro-io/datahub/internal/server"
 	"github.com/mimiro-io/datahub/internal/service/store"
 	"github.com/mimiro-io/datahub/internal/service/types"
+	"github.com/mimiro-io/datahub/internal/verifhook"
 	"go.uber.org/zap"
 )
 
@@ -96,6 +97,7 @@ func (c *CompactionWorker) compact(datasetID string, strategy CompactionStrategy
 func (c *CompactionWorker) forEntity(dsId types.InternalDatasetID, internalEntityID types.InternalID, txn *badger.Txn,
 	strategy CompactionStrategy, ops *compactionInstruction,
 ) error {
+	verifhook.Point("compact.entity")
 	entityLocatorPrefixBuffer := store.SeekEntityChanges(dsId, internalEntityID)
 	opts1 := badger.DefaultIteratorOptions
 	opts1.PrefetchValues = false
@@ -190,6 +192,7 @@ func flushDeletes(bs store.BadgerStore, ops *compactionInstruction, finalFlush b
 	if err != nil {
 		return false, err
 	}
+	verifhook.Point("compact.after-flush")
 	return true, nil
 }
 
